@@ -31,6 +31,11 @@ func extraMode(mode string, n int, r *rand.Rand) bool {
 	case "e2e13":
 		for i := 0; i < n; i++ {
 			emit(genE2E13(r))
+			if i%8 == 0 { // pairs of statements that differ in the letter case of a constant
+				for _, c := range genE2E13Seq(r) {
+					emit(c)
+				}
+			}
 		}
 	case "e2etailg":
 		forceTwoKeys = true
